@@ -13,14 +13,14 @@ for d in sorted(glob.glob(V + '/seeded/*/'), key=key):
     m = json.load(open(d + 'meta.json'))
     det = m['detected_by']
     rep = ', '.join('%s %s(%s)' % (p, 'YES ' if r['detected'] else '**no** ', r['violations']) for p, r in sorted(det.items())) or 'not run'
-    org = 'fix reversed' if m['id'].startswith('ORIG') else ('agent r2' if '-n' in m['id'] else 'agent r1')
+    org = 'fix reversed' if m['id'].startswith('ORIG') else 'agent r%d' % {'m': 1, 'n': 2, 'p': 3}[m['id'].split('-')[1][0]]
     needs = m['needs_to_manifest'].replace('|', '\\|').replace('\n', ' ')
     needs = needs[:170] + ('…' if len(needs) > 170 else '')
     print('| %s | %s | %s | %s |' % (m['id'], org, needs, rep))
 print('\n### 11 Tiers as run (from the evidence files)\n')
 print('| property | tier | items | exhausted | paths | non-trivial | unknown | z3 queries | solver s | validated natively | wall s |')
 print('|---|---|---|---|---|---|---|---|---|---|---|')
-for f in sorted(glob.glob(V + '/evidence/C*.json')):
+for f in sorted(glob.glob(V + '/evidence/C*.json')) + sorted(glob.glob(V + '/evidence/thorough/C*.json')):
     e = json.load(open(f)); c = e['coverage']
     print('| %s | %s | %d | %d | %d | %d | %d | %d | %.0f | %d | %.0f |' % (
         e['property_id'], e['tier'], c['items'], c['items_exhausted'], c['states'], c['distinct_nontrivial'],
